@@ -324,11 +324,11 @@ int __wrap_poll(struct pollfd *p, nfds_t n, int tmo)
         { long long d; if (sscanf(line, "ADV %lld", &d) == 1) { now_us += d; continue; } }
         if (!strcmp(line, "CONN")) { npending_conn++; continue; }
         if (sscanf(line, "SIG %63s", w) == 1) { raise(!strcmp(w, "INT") ? SIGINT : SIGTERM); continue; }
+        if (sscanf(line, "PLANDEFAULT %63s", w) == 1) {
+            cplan_default = !strcmp(w, "ok-now") ? CP_OK_NOW : !strcmp(w, "syncfail") ? CP_SYNCFAIL : !strcmp(w, "refuse-hup") ? CP_REFUSE_HUP : !strcmp(w, "refuse-soerr") ? CP_REFUSE_SOERR : !strcmp(w, "pending") ? CP_INPROGRESS_PENDING : CP_INPROGRESS_OK; continue; }
         if (sscanf(line, "PLAN %63s", w) == 1) {
             int v = !strcmp(w, "ok-now") ? CP_OK_NOW : !strcmp(w, "syncfail") ? CP_SYNCFAIL : !strcmp(w, "refuse-hup") ? CP_REFUSE_HUP : !strcmp(w, "refuse-soerr") ? CP_REFUSE_SOERR : !strcmp(w, "pending") ? CP_INPROGRESS_PENDING : CP_INPROGRESS_OK;
             if (cplan_n < 1024) cplan[cplan_n++] = v; continue; }
-        if (sscanf(line, "PLANDEFAULT %63s", w) == 1) {
-            cplan_default = !strcmp(w, "ok-now") ? CP_OK_NOW : !strcmp(w, "syncfail") ? CP_SYNCFAIL : !strcmp(w, "refuse-hup") ? CP_REFUSE_HUP : !strcmp(w, "refuse-soerr") ? CP_REFUSE_SOERR : !strcmp(w, "pending") ? CP_INPROGRESS_PENDING : CP_INPROGRESS_OK; continue; }
         if (sscanf(line, "%63s %63s", w, a) >= 2) {
             int fd = -1;
             if (a[0] == 'c' && a[1] != 'o') fd = find_vfd(K_CLIENT, K_CLIENT, atoi(a + 1));
